@@ -30,6 +30,14 @@ def generate(rng, tier):
     for p in fixed_unbal:
         cases.append(Case("pat.new", [enc(p)], tag="compile"))
         cases.append(Case("pat.match", [enc(p), enc("ab")], tag="compile"))
+    # the compile half, exhaustively: every string over { } a , up to length 6 (thorough: 8)
+    import itertools
+    maxlen = 6 if tier == "quick" else 8
+    for L in range(1, maxlen + 1):
+        for tup in itertools.product("{}a,", repeat=L):
+            q = "".join(tup)
+            if "{" in q or "}" in q:
+                cases.append(Case("pat.new", [enc(q)], tag="compile-enum"))
     for _ in range(n):
         t = pgen.tree(rng)
         p = pgen.tree_print(t)
